@@ -885,6 +885,10 @@ pub enum MsgFault {
     /// a double fault that keeps the chunk count: chunk `lost` removed, chunk
     /// `repeated` delivered twice (ids realign after the disturbed stretch)
     LoseAndRepeat { lost: u16, repeated: u16 },
+    /// `extra` more chunks with the next ids and without the end-of-message
+    /// flag after a complete message (`same_size`: sized like the others, else
+    /// `len` bytes): the flag is then on an earlier chunk and not on the last
+    Stray { extra: u8, same_size: bool, len: u16 },
 }
 pub fn msg_fault() -> impl Strategy<Value = MsgFault> {
     prop_oneof![
@@ -897,6 +901,7 @@ pub fn msg_fault() -> impl Strategy<Value = MsgFault> {
         (any::<u16>(), 1u8..=3).prop_map(|(i, d)| MsgFault::Renumber(i, d)),
         (any::<u16>(), 1u8..=16).prop_map(|(i, k)| MsgFault::Reflow(i, k)),
         (any::<u16>(), any::<u16>()).prop_map(|(lost, repeated)| MsgFault::LoseAndRepeat { lost, repeated }),
+        (1u8..=3, any::<bool>(), 1u16..200).prop_map(|(extra, same_size, len)| MsgFault::Stray { extra, same_size, len }),
     ]
 }
 
@@ -996,6 +1001,17 @@ impl MsgCase {
                     c[l] = copy;
                     true
                 }
+            }
+            MsgFault::Stray { extra, same_size, len } if n >= 1 => {
+                for k in 0..extra as u16 {
+                    let mut e = c[n - 1].clone();
+                    e.chunk_id = c[n - 1].chunk_id.wrapping_add(1 + k);
+                    e.flags = 0;
+                    let size = if same_size { c[0].payload.len() } else { len as usize };
+                    e.payload = (0..size).map(|j| (j as u8).wrapping_mul(31) ^ k as u8).collect();
+                    c.push(e);
+                }
+                true
             }
             MsgFault::Reflow(i, k) if n >= 3 => {
                 let at = pick(i, n - 1);
